@@ -80,8 +80,7 @@ theorem startSend_ok (fl cfg s t f h vs) :
   · exact ⟨[], Or.inl rfl, StepOk.ofSameFin (same_ok fl s)⟩
   · split
     · exact ⟨[], Or.inl rfl, StepOk.ofSameFin (same_ok fl s)⟩
-    · simp only []
-      have hc := create_ok fl s t (.snd f h vs) f h vs
+    · have hc := create_ok fl s t (.snd f h vs) f h vs
       split
       · -- oneshot
         rename_i hf
@@ -94,7 +93,8 @@ theorem startSend_ok (fl cfg s t f h vs) :
           · exact ⟨_, Or.inr rfl, hc.trans (failSend_ok ..)⟩
           · exact ⟨_, Or.inr rfl, hc.trans (rvSendStep_ok fl hf ..)⟩
         · exact ⟨[], Or.inl rfl, StepOk.ofSameFin (same_ok fl s)⟩
-      · split
+      · unfold startSendBuf
+        split
         · rename_i he
           have hv : vs = [] := by simpa using firstHit_E he
           subst hv
